@@ -110,7 +110,16 @@ namespace {
          for (std::size_t i = 0; i < seq.size(); ++i) {
             m->param(name(i), *ty[seq[i]]);
             want.push_back(ty[seq[i]]);
+            // the component of the NEW member is read first (before any lower index), right after the refused reads of the
+            // previous round: a refused access must not leave anything behind that a later, valid one trips over
+            if (auto p = ipr::util::view<ipr::Product>(t)) {
+               rep.count("transitions");
+               try { if (&(*p)[i] != ty[seq[i]]) fail("parameter-list:wrong-component-after-refused-access", { seq.begin(), seq.begin() + i + 1 }, "component #" + std::to_string(i) + " of the parameter list's type, read first after an out-of-range access was refused, is not the type of the parameter just added"); }
+               catch (const std::exception& e) { fail("parameter-list:valid-component-refused", { seq.begin(), seq.begin() + i + 1 }, std::string("reading the component of the parameter just added is refused: ") + e.what()); }
+            }
             check_product("parameter-list", { seq.begin(), seq.begin() + i + 1 }, t, want);
+            for (std::size_t beyond : { i + 1, i + 2 }) { try { (void) &*pl.elements().position(beyond); fail("parameter-list:out-of-range-answered", { seq.begin(), seq.begin() + i + 1 }, "a position beyond the last parameter is answered"); } catch (const std::logic_error&) { } }
+            if (i > 0) (void) &*pl.elements().position(i);          // leave the last successful access at a high index
             check_product("parameter-scope", { seq.begin(), seq.begin() + i + 1 }, pl.region().bindings().type(), want);
             rep.count("states");
          }
@@ -163,7 +172,13 @@ namespace {
             auto* b = k->declare_base(*ty[seq[i]]);
             if (bt == nullptr) bt = &static_cast<const ipr::Base_type&>(*b).home_region().bindings().type();
             bwant.push_back(ty[seq[i]]);
+            if (auto p = ipr::util::view<ipr::Product>(*bt)) {
+               rep.count("transitions");
+               try { if (&(*p)[i] != ty[seq[i]]) fail("base-list:wrong-component-after-refused-access", { seq.begin(), seq.begin() + i + 1 }, "component #" + std::to_string(i) + " of the base list's type, read first after an out-of-range access was refused, is not the base just declared"); }
+               catch (const std::exception& e) { fail("base-list:valid-component-refused", { seq.begin(), seq.begin() + i + 1 }, std::string("reading the component of the base just declared is refused: ") + e.what()); }
+            }
             check_product("base-list", { seq.begin(), seq.begin() + i + 1 }, *bt, bwant);
+            { auto& bs = static_cast<const ipr::Class&>(*k).bases(); for (std::size_t beyond : { i + 1, i + 2 }) { try { (void) &*bs.position(beyond); fail("base-list:out-of-range-answered", { seq.begin(), seq.begin() + i + 1 }, "a position beyond the last base is answered"); } catch (const std::logic_error&) { } } if (i > 0) (void) &*bs.position(i); }
             rep.count("states");
          }
       }
